@@ -8,10 +8,10 @@ def build(ctx, alt=False):
     R = core.REPO
     sfx = "_alt" if alt else ""
     o = os.path.join(ctx.work, "strtod%s.o" % sfx)
-    ctx.sh(["gcc", "-std=c11", "-D_POSIX_C_SOURCE=200809L", "-g"] + core.opt_flags(alt) + ["-fsanitize=address", "-fno-omit-frame-pointer", "-fno-builtin", "-w", "-I" + R,
+    ctx.sh(["gcc", "-std=c11", "-D_POSIX_C_SOURCE=200809L", "-g"] + core.opt_flags(alt) + core.cov_flags() + ["-fsanitize=address", "-fno-omit-frame-pointer", "-fno-builtin", "-w", "-I" + R,
             "-include", os.path.join(core.HARNESS, "rename_strtod.h"), "-c", os.path.join(R, "compat/libc/stdlib/strtod.c"), "-o", o], timeout=300)
     o2 = os.path.join(ctx.work, "strtod32%s.o" % sfx)   # the build for targets without binary64 parsing
-    ctx.sh(["gcc", "-std=c11", "-D_POSIX_C_SOURCE=200809L", "-g"] + core.opt_flags(alt) + ["-fsanitize=address", "-fno-omit-frame-pointer", "-fno-builtin", "-w", "-I" + R, "-DWITHOUT_ATOF64",
+    ctx.sh(["gcc", "-std=c11", "-D_POSIX_C_SOURCE=200809L", "-g"] + core.opt_flags(alt) + core.cov_flags() + ["-fsanitize=address", "-fno-omit-frame-pointer", "-fno-builtin", "-w", "-I" + R, "-DWITHOUT_ATOF64",
             "-include", "stdlib.h", "-Dstrtod=igv32_strtod", "-Datof=igv32_atof", "-c", os.path.join(R, "compat/libc/stdlib/strtod.c"), "-o", o2], timeout=300)
     return ctx.cxx("drv_float" + sfx, ["drv_float.cpp", R + "/igris/util/numconvert.c", R + "/igris/dprint/dprint_func_impl.c"], flags=["-fno-access-control"], objs=[o, o2], alt=alt)
 
